@@ -2,9 +2,11 @@
    Statement file: theorems, [exact lemma], Print Assumptions.  Nothing else.
    Machine: Models/C03_cache.v ([step] with every invalidation point of the code = [all_on],
    including the staleness guards for settings no memo key records and the exception-safe
-   get_fantasy_model).  Configurations 0..3 of every family include the settings-changing ones
+   get_fantasy_model, and the shape guard of the memoised variational Cholesky factor).  A
+   configuration c < 12 is a pair (settings c mod 4, batch shape of the test inputs c / 4: un-batched,
+   (2,), (3,)); the settings of every family include the settings-changing ones
    (sgpr_diagonal_correction(False), variational_cholesky_jitter(1e-3)): no hypothesis restricts
-   the settings used along a history. *)
+   the settings or the input batch shapes used along a history. *)
 From Coq Require Import Arith List Bool.
 From GPV Require Import Models.C03_cache Proofs.C03_cache.
 Import ListNotations.
@@ -58,9 +60,9 @@ Theorem c03_history_independence_from :
 Proof. intros fam s h c H. exact (history_independence_from fam H s h c). Qed.
 Print Assumptions c03_history_independence_from.
 
-(* the five concrete families, all four configurations each, no side condition *)
+(* the five concrete families, all 12 configurations (4 settings x 3 input batch shapes) each, no side condition *)
 Theorem c03_history_independence_exact :
-  forall h c, admissible all_on fam_exact init h = true -> c < 4 ->
+  forall h c, admissible all_on fam_exact init h = true -> c < 12 ->
     training (run all_on fam_exact init h) = false ->
     predict_out all_on fam_exact (run all_on fam_exact init h) c =
     predict_out all_on fam_exact (fresh (pv (run all_on fam_exact init h)) (dv (run all_on fam_exact init h)) false) c.
@@ -68,7 +70,7 @@ Proof. intros h c. exact (history_independence_gen fam_exact wf_exact h c). Qed.
 Print Assumptions c03_history_independence_exact.
 
 Theorem c03_history_independence_kiss :
-  forall h c, admissible all_on fam_kiss init h = true -> c < 4 ->
+  forall h c, admissible all_on fam_kiss init h = true -> c < 12 ->
     training (run all_on fam_kiss init h) = false ->
     predict_out all_on fam_kiss (run all_on fam_kiss init h) c =
     predict_out all_on fam_kiss (fresh (pv (run all_on fam_kiss init h)) (dv (run all_on fam_kiss init h)) false) c.
@@ -78,18 +80,19 @@ Print Assumptions c03_history_independence_kiss.
 (* SGPR: configuration 3 is sgpr_diagonal_correction(False); the strategy records the setting it
    was built under and ExactGP.__call__ rebuilds a stale one *)
 Theorem c03_history_independence_sgpr :
-  forall h c, admissible all_on fam_sgpr init h = true -> c < 4 ->
+  forall h c, admissible all_on fam_sgpr init h = true -> c < 12 ->
     training (run all_on fam_sgpr init h) = false ->
     predict_out all_on fam_sgpr (run all_on fam_sgpr init h) c =
     predict_out all_on fam_sgpr (fresh (pv (run all_on fam_sgpr init h)) (dv (run all_on fam_sgpr init h)) false) c.
 Proof. intros h c. exact (history_independence_gen fam_sgpr wf_sgpr h c). Qed.
 Print Assumptions c03_history_independence_sgpr.
 
-(* variational GPs (with and without fantasy support): configuration 3 is
+(* variational GPs (with and without fantasy support): settings 3 is
    variational_cholesky_jitter(1e-3); __call__ clears the memo when the jitter differs from the
-   recorded one *)
+   recorded one; the single memoised Cholesky factor is keyed by the batch shape of the inputs and
+   replaced when a call arrives with another batch shape *)
 Theorem c03_history_independence_variational :
-  forall b h c, admissible all_on (fam_var b) init h = true -> c < 4 ->
+  forall b h c, admissible all_on (fam_var b) init h = true -> c < 12 ->
     training (run all_on (fam_var b) init h) = false ->
     predict_out all_on (fam_var b) (run all_on (fam_var b) init h) c =
     predict_out all_on (fam_var b)
@@ -141,7 +144,11 @@ Print Assumptions c03_source_never_lost.
    + backward, then a fantasy model -> the copy raises and the source predicts the prior; with
    the finally block the same history is harmless; on the current KISS-GP family (the cached
    matrix is not copied) the fantasy model simply succeeds;
-   5 backward hook: observable is the status of the next non-detached backward).
+   5 backward hook: observable is the status of the next non-detached backward;
+   14 the shape guard of VariationalStrategy.forward: a prediction on 3 x n x d inputs, then one on
+   n x d inputs (or any two different batch shapes, also with a prior-mode call in between) consults
+   the factor computed for the other batch shape; the exact families have no cache that depends on
+   the input batch shape, and the KISS-GP re-keying point 10 does not stand in for it).
    Point 1 (clearing on train(True)) alone is masked by point 2 for predictions, which is why 11
    removes both. *)
 Theorem c03_dropped_invalidation_refutes :
@@ -162,7 +169,12 @@ Theorem c03_dropped_invalidation_refutes :
   differs all_on fam_kiss_cached_copy [OBackward; OFantasy] 0 = false /\
   fst (snd (step all_on fam_kiss (run all_on fam_kiss init [OBackward]) OFantasy)) = ST_OK /\
   (bwd_status all_on fam_exact [OPredict 2; OBackward] = ST_OK /\
-   bwd_status (points_without 5) fam_exact [OPredict 2; OBackward] = ST_ERR).
+   bwd_status (points_without 5) fam_exact [OPredict 2; OBackward] = ST_ERR) /\
+  (differs (points_without 14) (fam_var true) [OPredict 8] 0 = true /\
+   differs (points_without 14) (fam_var false) [OPredict 9; OPrior] 5 = true /\
+   differs (points_without 14) (fam_var true) [OPredict 0] 4 = true /\
+   differs (points_without 14) fam_exact [OPredict 8] 0 = false /\
+   differs (points_without 10) (fam_var true) [OPredict 8] 0 = false).
 Proof. exact dropped_refutes. Qed.
 Print Assumptions c03_dropped_invalidation_refutes.
 
@@ -192,6 +204,14 @@ Example ex_c03_settings_history :
   sck (run all_on (fam_var true) init ex_hist_var) = 1 /\
   length (cch (run all_on (fam_var true) init ex_hist_var)) = 2.
 Proof. exact ex_hist_settings_ok. Qed.
+(* predictions at all three input batch shapes of a variational GP: one Cholesky entry, keyed by the last shape;
+   a call on 3 x n x d inputs under skip_posterior_variances consults the factor keyed 2 *)
+Example ex_c03_batch_shapes :
+  admissible all_on (fam_var true) init ex_hist_shapes = true /\
+  training (run all_on (fam_var true) init ex_hist_shapes) = false /\
+  map (fun e => (e_slot e, e_key e)) (cch (run all_on (fam_var true) init ex_hist_shapes)) = [(CHOL, 1); (VDIST, 0)] /\
+  map (fun u => (u_slot u, u_key u)) (f_uses (fam_var true) 9) = [(VDIST, 0); (CHOL, 2)].
+Proof. exact ex_hist_shapes_ok. Qed.
 Example ex_c03_wf : wf_family fam_exact = true /\ wf_family fam_kiss = true /\ wf_family fam_sgpr = true /\
                     wf_family (fam_var true) = true /\ wf_family (fam_var false) = true.
 Proof. exact ex_wf_all. Qed.
